@@ -40,6 +40,10 @@ ShellRequest(c) == /\ phase[c] = "authed" /\ shells[c] < MaxShells
 \* channels live on and the slot stays taken
 OtherChannel(c) == /\ phase[c] = "authed" /\ shells[c] < MaxShells
                    /\ UNCHANGED <<phase, shells, counter>> /\ H("otherchannel", c)
+\* a client that opens many channels at once on one connection (sessions without a shell request and other kinds, more than
+\* the SSH library queues per connection) and does not wait for the answers: nothing changes, the connection lives on
+ChannelBurst(c) == /\ phase[c] = "authed" /\ shells[c] < MaxShells
+                   /\ UNCHANGED <<phase, shells, counter>> /\ H("channelburst", c)
 \* a request the server does not serve (pty-req, env, exec, ... - what a stock ssh client sends first), possibly followed by
 \* more requests the client has already put on the wire: the server answers "no" and closes the whole connection
 UnknownRequest(c) == /\ phase[c] = "authed" /\ phase' = [phase EXCEPT ![c] = "closed"]
@@ -49,7 +53,7 @@ UnknownRequest(c) == /\ phase[c] = "authed" /\ phase' = [phase EXCEPT ![c] = "cl
 Close(c) == /\ phase[c] = "authed" /\ phase' = [phase EXCEPT ![c] = "closed"]
             /\ counter' = IF KF_DecrementPerShell THEN counter - shells[c] ELSE counter - 1
             /\ UNCHANGED shells /\ H("close", c)
-Next == \E c \in Conns : Connect(c) \/ HandshakeOK(c) \/ HandshakeFail(c) \/ ShellRequest(c) \/ OtherChannel(c) \/ UnknownRequest(c) \/ Close(c)
+Next == \E c \in Conns : Connect(c) \/ HandshakeOK(c) \/ HandshakeFail(c) \/ ShellRequest(c) \/ OtherChannel(c) \/ ChannelBurst(c) \/ UnknownRequest(c) \/ Close(c)
 Spec == Init /\ [][Next]_vars
 viewNoHist == <<phase, shells, counter>>
 
